@@ -18,7 +18,10 @@ CONSTANTS Shapes, Bug
 
 Ops == {"call", "copy", "deepcopy", "pickle0", "pickle1", "pickle2", "pickle3", "pickle4", "pickle5"}
 (* "claims_class": an object that is not MISSING but reports Missing as its __class__ (a mock with spec=Missing, a proxy) *)
-LookAlikes == {"MISSING", "None", "False", "zero", "empty_str", "empty_tuple", "always_equal", "other_state", "claims_class"}
+(* "forged": a second genuine instance of the class, made behind the type's back (object.__new__(Missing), an old pickle
+   stream that rebuilds by NEWOBJ): it is not the MISSING object, and MISSING is equal only to itself *)
+LookAlikes == {"MISSING", "None", "False", "zero", "empty_str", "empty_tuple", "always_equal", "other_state", "claims_class",
+               "forged"}
 
 VARIABLES shape, nids, obs
 vars == <<shape, nids, obs>>
@@ -43,11 +46,12 @@ Obtain(op) ==
 Probe(x) ==
   /\ shape = "bare" /\ UNCHANGED <<shape, nids>>
   /\ LET same == x = "MISSING" IN
+     \E mine \in (IF x = "forged" THEN BOOLEAN ELSE {same \/ x = "always_equal"}) :     \* (what the forged instance's own __eq__ says is its affair)
      obs' = [k |-> "probe", fresh |-> 0, ok |-> "ok",
              \* <<MISSING == x, x == MISSING>>; with x on the left the look-alike's own __eq__ decides, so an
              \* object whose __eq__ always answers True says True there - MISSING's side must still say False
              eq |-> <<IF Bug = "eq_any_falsy" /\ x \in {"None", "False", "zero"} THEN TRUE ELSE same,
-                      same \/ x = "always_equal">>,
+                      mine>>,
              pred |-> <<IF same THEN "is_missing" ELSE "not_missing", IF same THEN "default" ELSE "value", "falsy">>,
              attrs |-> "none"]
 
